@@ -32,10 +32,10 @@ import (
 type baseFaultClass int
 
 const (
-	bfMustReject baseFaultClass = iota // at the listed steps
-	bfNoComplete                       // any refusal at the listed steps
-	bfWeakCorrelated                   // no panic; completed => correlated
-	bfNoPanic                          // no panic
+	bfMustReject     baseFaultClass = iota // at the listed steps
+	bfNoComplete                           // any refusal at the listed steps
+	bfWeakCorrelated                       // no panic; completed => correlated
+	bfNoPanic                              // no panic
 )
 
 func vsotClass(msg, path string) (baseFaultClass, []string) {
